@@ -166,17 +166,23 @@ def resolve (b base : Text) : Option Text :=
 
 /-! ## `relative_to`, `suffix`, `base` -/
 
-/-- the two-iterator loop of `relative_to` with `peek` -/
-def dropCommon : List Text → List Text → List Text × List Text
-  | a :: as, b :: bs => if Cmp.pctEq a b == some true then dropCommon as bs else (a :: as, b :: bs)
-  | as, bs => (as, bs)
+/-- the two-iterator loop of `relative_to` with `peek`: the last segment of the first list names
+the target itself and takes no part in the comparison; the Boolean tells whether anything was
+dropped -/
+def dropCommon : List Text → List Text → List Text × List Text × Bool
+  | a :: a2 :: as, b :: bs =>
+    if Cmp.pctEq a b == some true then
+      let r := dropCommon (a2 :: as) bs
+      (r.1, r.2.1, true)
+    else (a :: a2 :: as, b :: bs, false)
+  | as, bs => (as, bs, false)
 
 /-- `dropCommon` panics when a compared pair cannot be decoded -/
 def dropCommonPanics : List Text → List Text → Bool
-  | a :: as, b :: bs =>
+  | a :: a2 :: as, b :: bs =>
     match Cmp.pctEq a b with
     | none => true
-    | some true => dropCommonPanics as bs
+    | some true => dropCommonPanics (a2 :: as) bs
     | some false => false
   | _, _ => false
 
@@ -186,25 +192,33 @@ def pushAll : Text → List Text → Option Text
     let h ← (path_mut b).push s
     pushAll h.buffer ss
 
+/-- the whole of `a`, dot segments removed the way `==` reads them -/
+def whole (a : Text) : Option Text := (path_mut a).normalize.map (·.buffer)
+
 /-- the path part of `relative_to`, once schemes and authorities agree: `..` for every remaining
 segment of the base's directory, then the remaining segments of `a`; query and fragment of `a` -/
 def relative_body (a other : Text) : Option Text :=
-  let self_segments := Path.normalized_segments (path a)
-  let base_segments := Path.normalized_segments (Path.parent_or_empty (path other))
-  let sameAbs := Path.is_absolute (path a) == Path.is_absolute (path other)
-  if sameAbs && dropCommonPanics self_segments base_segments then none
+  let otherAbs := Path.is_absolute (path other) || ((authority other).isSome && Path.is_empty (path other))
+  if Path.is_absolute (path a) != otherAbs then whole a
   else
-    let (ss, bs) := if sameAbs then dropCommon self_segments base_segments
-                    else (self_segments, base_segments)
-    do
-      let r1 ← pushAll [] (bs.map fun _ => [cDot, cDot])
-      let r2 ← pushAll r1 ss
-      let r3 ←
-        if ((query a).isSome || (fragment a).isSome)
-            && some (path r2) == Path.last (path other)
-        then ((path_mut r2).clear).map (·.buffer) else some r2
-      let r4 ← set_query r3 (query a)
-      set_fragment r4 (fragment a)
+    let self_segments := Path.normalized_segments (path a)
+    let base_segments := Path.normalized_segments (Path.parent_or_empty (path other))
+    if self_segments.head? == some [cDot, cDot] || base_segments.head? == some [cDot, cDot] then whole a
+    else if dropCommonPanics self_segments base_segments then none
+    else
+      let d := dropCommon self_segments base_segments
+      if !d.2.2 && d.1.head? == some [] then whole a
+      else do
+        let r1 ← pushAll [] (d.2.1.map fun _ => [cDot, cDot])
+        let r2 ← pushAll r1 d.1
+        let r2 ← if Path.is_empty (path r2) then ((path_mut r2).push []).map (·.buffer) else some r2
+        let r3 ←
+          if ((query a).isSome || (fragment a).isSome)
+              && ((query a).isSome || (query other).isNone)
+              && some (path r2) == Path.last (path other)
+          then ((path_mut r2).clear).map (·.buffer) else some r2
+        let r4 ← set_query r3 (query a)
+        set_fragment r4 (fragment a)
 
 /-- `RiRefImpl::relative_to` (on references) -/
 def relative_to (a other : Text) : Option Text :=
@@ -213,17 +227,16 @@ def relative_to (a other : Text) : Option Text :=
   let schemeMismatch := match sa, so with
     | some x, some y => x != y
     | _, _ => false
-  if schemeMismatch then some a
+  if schemeMismatch then whole a
   else
-    let aa := authority a
-    let ao := authority other
-    let authCmp : Option Bool := match aa, ao with
-      | some x, some y => Cmp.authorityEq x y
-      | _, _ => some true
-    match authCmp with
-    | none => none
-    | some false => some a
-    | some true => relative_body a other
+    match authority a, authority other with
+    | some x, some y =>
+      match Cmp.authorityEq x y with
+      | none => none
+      | some false => whole a
+      | some true => relative_body a other
+    | none, none => relative_body a other
+    | _, _ => whole a
 
 /-- `RiRefImpl::suffix` -/
 def suffix (a prefix_ : Text) : Option (Option (Text × Option Text × Option Text)) :=
